@@ -45,6 +45,12 @@ def run(ctx):
              ((b"user-%d" % mask) if mask >> 4 & 1 else None,)
         recs.append("S " + gen.s_state(st))
     recs.append("A 1 1 " + gen.hx(bytes(range(256)) * 40))      # 10 KB payload
+    # large records: around 64 KiB and around 1 MiB (a size limit in the decoder that the
+    # encoder does not have would show only here)
+    big = [65535, 65536, 65537, (1 << 20) - 40, (1 << 20) + 1] + ([(1 << 21) + 3, 3 << 20] if ctx.thorough() else [])
+    for n in big:
+        recs.append("A 7 %d %s" % (n, gen.hx(bytes((i * 7 + n) & 0xFF for i in range(n)))))
+    recs.append("S 1:2 3:4 - 5:6 " + gen.hx(bytes((i * 13) & 0xFF for i in range((1 << 20) + 17))))
     while len(recs) < nrec:
         recs.append(gen.rand_record(rnd))
     for r in recs:
@@ -65,7 +71,13 @@ def run(ctx):
         if int(n) != len(b):
             ctx.fail("oracle", "encoder reported %s bytes but wrote %d" % (n, len(b)), dict(kind="bytes", case="ENC " + r, observed=line))
         dec_inputs.append(b); origin.append(("valid", r, len(b)))
-        if len(b) <= 400 or rnd.random() < 0.1:
+        if len(b) > 20000:
+            # large record: a few cuts and one flip only
+            for c in (len(b) - 1, len(b) - 8, len(b) // 2):
+                dec_inputs.append(b[:c]); origin.append(("mut", r, None)); ctx.count("dec_truncated")
+            m = bytearray(b); m[len(b) // 3] ^= 0x10
+            dec_inputs.append(bytes(m)); origin.append(("mut", r, None)); ctx.count("dec_single_byte_mutation")
+        elif len(b) <= 400 or rnd.random() < 0.1:
             for m in mutations(rnd, b, ctx, per):
                 dec_inputs.append(m); origin.append(("mut", r, None))
     for _ in range(ctx.scale(1500, 10000)):
